@@ -673,6 +673,8 @@ impl Drop for Database {
         if Arc::strong_count(&self.0) == 1 {
             let _ = self.sync_bg_tasks();
         }
+        #[cfg(anydb_verif)]
+        verif::pause_point("drop_checked");
     }
 }
 
